@@ -293,6 +293,21 @@ def stateDurationNode (t : Int) : Node Unit (Option Int) Pt Out :=
       let st := start.getD p.time
       (some st, [{ key := p.key, time := p.time, proj := fbits (Float.ofInt (p.time - st) / 1e9) }]))
 
+/-- `stateCount(lambda: count() % M == 0)`: the lambda's `count()` state (the group's CopyReset copy) and the tracker are
+both per group. -/
+def stateCountFnNode (m : Nat) : Node Unit (Nat × Int) Pt Out :=
+  pureNode (0, 0) (fun s p =>
+    if (s.1 + 1) % m == 0 then ((s.1 + 1, s.2 + 1), [{ key := p.key, time := p.time, proj := s!"i:{s.2 + 1}" }])
+    else ((s.1 + 1, 0), [{ key := p.key, time := p.time, proj := "i:-1" }]))
+
+/-- `stateDuration(lambda: count() % M != 0)` (unit 1s). -/
+def stateDurationFnNode (m : Nat) : Node Unit (Nat × Option Int) Pt Out :=
+  pureNode (0, none) (fun s p =>
+    if (s.1 + 1) % m != 0 then
+      let st := s.2.getD p.time
+      ((s.1 + 1, some st), [{ key := p.key, time := p.time, proj := fbits (Float.ofInt (p.time - st) / 1e9) }])
+    else ((s.1 + 1, none), [{ key := p.key, time := p.time, proj := fbits (-1.0) }]))
+
 /-- `changeDetectGroup.Point` for one field: a missing field is "no change"; values are compared as Go interfaces
 (type and value; NaN and -0.0 are not generated). -/
 def changeDetectNode : Node Unit (Option Val) Pt Out :=
@@ -614,6 +629,14 @@ def stateCountNodeB (t : Int) : Node Unit Unit Batch Out :=
       | some false => (0, acc.2 ++ [(p.time, some "i:-1")])
       | some true => (acc.1 + 1, acc.2 ++ [(p.time, some s!"i:{acc.1 + 1}")])) (0, [])
     ((), ((), [batchOut b r.2])))
+
+/-- `stateCount(lambda: count() % 2 == 0)` batch side: the tracker restarts at BeginBatch, the lambda's `count()` does not. -/
+def stateCountFnNodeB : Node Unit Nat Batch Out :=
+  batchNode 0 (fun _ cnt b =>
+    let r := b.pts.foldl (fun (acc : (Nat × Int) × List (Int × Option String)) p =>
+      if (acc.1.1 + 1) % 2 == 0 then ((acc.1.1 + 1, acc.1.2 + 1), acc.2 ++ [(p.time, some s!"i:{acc.1.2 + 1}")])
+      else ((acc.1.1 + 1, 0), acc.2 ++ [(p.time, some "i:-1")])) ((cnt, 0), [])
+    ((), (r.1.1, [batchOut b r.2])))
 
 /-- `whereGroup` batch side with `lambda: count() % 2 == 1`: the group's `count()` is NOT reset between batches. -/
 def whereCountNodeB : Node Unit Nat Batch Out :=
